@@ -210,7 +210,7 @@ def _acc_cases(tier):
                 out.append({"n": n, "L": L, "depth": depth, "vals": [1.0], "convention": conv})
     if tier == "thorough":
         for L in (2, 3, 0):
-            for n in (2, 5, 12, 20, 21, 24):
+            for n in sizes[:6]:          # only sizes the estimators can derive (see reachable_sizes)
                 out.append({"n": n, "L": L, "depth": 6, "vals": [1.0, 0.5], "convention": "rebind"})
     return out
 
